@@ -517,6 +517,8 @@ type crashExpCase struct {
 	Via   string     `json:"via"`   // entry point that set the expiry
 	Crash CrashPoint `json:"crash"` // where the child dies (after the expiry write was acknowledged)
 	Extra int        `json:"extra"` // further acknowledged writes (without expiry) before the kill
+	// Overdue: reopen only after the expiry time has passed (nobody had the bucket open at T)
+	Overdue bool `json:"overdue,omitempty"`
 }
 
 func runCrashExpCase(c crashExpCase) ([]Deviation, error) {
@@ -564,6 +566,11 @@ func runCrashExpCase(c crashExpCase) ([]Deviation, error) {
 		bad("crashexp.setup", "the acknowledged expiry write left expiry 0")
 		return devs, nil
 	}
+	if c.Overdue {
+		for nowSec() <= deadline {
+			time.Sleep(100 * time.Millisecond)
+		}
+	}
 	w, err := NewWorldAt(cfg, dir, name, true)
 	if err != nil {
 		bad("crash.reopen", "cannot reopen after the kill: %v", err)
@@ -571,8 +578,13 @@ func runCrashExpCase(c crashExpCase) ([]Deviation, error) {
 	}
 	defer w.Close()
 	ds := w.Coll(0, 0)
-	if e, gerr := ds.GetExpiry(ctx, "soon"); gerr != nil || e != deadline {
+	opened := nowSec()
+	if e, gerr := ds.GetExpiry(ctx, "soon"); !c.Overdue && (gerr != nil || e != deadline) {
 		bad("crashexp.value", "after reopen GetExpiry(soon) = %d (err %v), the acknowledged expiry was %d", e, gerr, deadline)
+	}
+	due := deadline
+	if opened > due {
+		due = opened // overdue when the bucket was opened: "soon after" counts from the open
 	}
 	// no client activity on the bucket other than reads: the document must go away by itself
 	for {
@@ -585,8 +597,8 @@ func runCrashExpCase(c crashExpCase) ([]Deviation, error) {
 			}
 			break
 		}
-		if t0 >= deadline+expGuard {
-			bad("crashexp.late", "the document whose expiry (%d) was acknowledged before the kill is still readable at second %d after reopening: the pending expiration was lost", deadline, t0)
+		if t0 >= due+expGuard {
+			bad("crashexp.late", "the document whose expiry (%d) was acknowledged before the kill is still readable at second %d after reopening (at second %d): the pending expiration was lost", deadline, t0, opened)
 			break
 		}
 		time.Sleep(100 * time.Millisecond)
@@ -599,7 +611,7 @@ func runCrashExpCase(c crashExpCase) ([]Deviation, error) {
 
 func TestC10Expiry(t *testing.T) {
 	st := statsFor("C10", "TestC10Expiry")
-	st.Rule = "a child process sets a 2-4 s expiry through Set / Add / Touch / WriteWithXattrs, acknowledges it and 0-3 further writes, and is SIGKILLed at a generated hook occurrence of a later write; this process reopens the bucket and only reads: the expiry value must be the acknowledged one, the document must stay until its second and be gone within 5 s after it; non-trivial = all of them (the expiry write was acknowledged before the kill); distinct by case parameters"
+	st.Rule = "a child process sets a 2-4 s expiry through Set / Add / Touch / WriteWithXattrs, acknowledges it and 0-3 further writes, and is SIGKILLed at a generated hook occurrence of a later write; this process reopens the bucket and only reads: the expiry value must be the acknowledged one, the document must stay until its second and be gone within 5 s after it (in 40% of the cases the bucket is reopened only after the expiry time has passed: gone within 5 s after the open); non-trivial = all of them (the expiry write was acknowledged before the kill); distinct by case parameters"
 	if replayMode() {
 		rp := loadReplay("TestC10Expiry")
 		if rp == nil {
@@ -624,7 +636,7 @@ func TestC10Expiry(t *testing.T) {
 		n := 8
 		cases := make([]crashExpCase, n)
 		for i := range cases {
-			c := crashExpCase{TTL: rapid.IntRange(2, 4).Draw(rt, "ttl"), Via: pick(rt, []string{"Set", "Touch", "WriteWithXattrs", "Add"}, "via"), Extra: rapid.IntRange(0, 3).Draw(rt, "extra")}
+			c := crashExpCase{TTL: rapid.IntRange(2, 4).Draw(rt, "ttl"), Via: pick(rt, []string{"Set", "Touch", "WriteWithXattrs", "Add"}, "via"), Extra: rapid.IntRange(0, 3).Draw(rt, "extra"), Overdue: chance(rt, 40, "overdue")}
 			c.Crash = CrashPoint{Hook: pick(rt, []string{"tx.begin", "cas.afterDocWrite", "tx.beforeCommit", "tx.afterCommit", "cas.beforePost"}, "hook")}
 			// occurrences: one per write for every hook used here; the kill hits the trailing write or one of the extras
 			writes := 2 + c.Extra
